@@ -139,6 +139,37 @@ func init() {
 					row["expr_str"] = v.ToString()
 				}
 			}()
+			// history on ONE VM: the same text is first evaluated under the permissive setting (everything enabled), then the
+			// host flips the switches to this case's setting (and clears the variables, reseeds): both entry points must now behave
+			// as on a fresh VM with this setting
+			func() {
+				defer func() {
+					if r := recover(); r != nil {
+						row["hist_panic"] = fmt.Sprint(r)
+					}
+				}()
+				perm := allOn()
+				perm.OpLimit = 20000
+				c := newVM(perm, 7, 9, true)
+				_, _ = c.RunExpr(string(raw), false)
+				_ = c.Run(string(raw))
+				cfg.apply(c)
+				c.Attrs = &ds.ValueMap{}
+				c.RandSrc = mkSrc(7, 9)
+				c.NumOpCount = 0 // RunExpr deliberately keeps counting on a busy VM; the host starts a new evaluation here
+				c.Error = nil
+				v, err := c.RunExpr(string(raw), false)
+				if err != nil {
+					row["hist_expr_err"] = err.Error()
+				} else if v != nil {
+					row["hist_expr_ok"] = true
+					row["hist_expr_str"] = v.ToString()
+				}
+				c.Attrs = &ds.ValueMap{}
+				c.RandSrc = mkSrc(7, 9)
+				oc := runScript(c, string(raw), false)
+				row["hist_run_ok"], row["hist_run_str"], row["hist_run_rest"] = oc.Ok, oc.Str, oc.Rest
+			}()
 			emit(row)
 		}
 	}
